@@ -1,7 +1,57 @@
 import BigDec.Model.Fmt
-/-! # C16 (theorems under construction) -/
+import BigDec.Proofs.AsciiRound
+/-! # C16 — precision formatting rounds correctly; flags never alter the digits
+
+The formatter has its *own* rounding over ASCII digits (`round_ascii_digits`: digit pair through
+`round_pair`, carry past trailing nines, all-nines overflow, removed-digit count) separate from
+the numeric rounding routines.  `C16_round_ascii_digits` shows, for every digit string and every
+cut position, that it computes exactly the declarative rounding `Spec.roundNat` that the numeric
+routines were proved to compute (C06/C07) - the "agreement with the library's own rounding
+functions" of the statement.  Flags: `pad_integral` without flags adds only the sign.
+The layout around the rounded digits (where the point and the padding zeros go, `fmtIntFrac`,
+`fmtNoInt`, `zeroRightPad`) is tied text-exactly to the code and judged per generated input by the
+grammar oracle (value = `roundToScale`, exactly N fraction digits). -/
 namespace BigDec
+open Fmt Spec Spec.Numeral
+
 theorem C16_padIntegral_no_flags (nonneg : Bool) (buf : List Char) :
     Fmt.padIntegral {} nonneg buf = (if !nonneg then ['-'] else []) ++ buf := by
   simp [Fmt.padIntegral]
+
+theorem natStr_eq_digitsBE (n : Nat) : natStr n = (digitsBE n).map digitChar := by
+  unfold natStr digitsBE
+  split <;> rfl
+
+/-- **the formatter's rounding is the library's rounding.**  Cutting the decimal digits of `n`
+    after `sig` of them (`k` digits dropped): the digits returned by `round_ascii_digits`, shifted
+    by its removed-digit count, are `roundNat m neg n k` shifted by `k` - for every mode, sign,
+    number and cut position; and every returned character is a decimal digit. -/
+theorem C16_round_ascii_digits (m : Mode) (neg : Bool) (n sig : Nat) (h1 : 1 ≤ sig) (h2 : sig < numDigits n) :
+    digitsToNat ((roundAsciiDigits m neg (natStr n) sig).1.map charDigit) * 10 ^ (roundAsciiDigits m neg (natStr n) sig).2
+      = roundNat m neg n (numDigits n - sig) * 10 ^ (numDigits n - sig) ∧
+    (∀ c ∈ (roundAsciiDigits m neg (natStr n) sig).1, ∃ d, d < 10 ∧ c = digitChar d) := by
+  have hds := digitsBE_lt n
+  have hlen := digitsBE_length n
+  obtain ⟨hv, hd, _⟩ := roundBE_spec m neg (digitsBE n) sig hds h1 (by rw [hlen]; exact h2)
+  rw [natStr_eq_digitsBE, roundAscii_eq_roundBE m neg _ sig hds]
+  simp only
+  rw [hlen, digitsToNat_digitsBE] at hv
+  constructor
+  · rw [List.map_map]
+    have : (roundBE m neg (digitsBE n) sig).1.map (charDigit ∘ digitChar) = (roundBE m neg (digitsBE n) sig).1 := by
+      conv => rhs; rw [← List.map_id (roundBE m neg (digitsBE n) sig).1]
+      apply List.map_congr_left
+      intro d hdm
+      exact charDigit_digitChar d (hd d hdm)
+    rw [this]; exact hv
+  · intro c hc
+    obtain ⟨d, hdm, rfl⟩ := List.mem_map.mp hc
+    exact ⟨d, hd d hdm, rfl⟩
+
+/-- non-vacuity and the three regimes: plain cut, carry past nines, all nines -/
+example : roundAsciiDigits .HalfEven false (natStr 12345) 3 = (['1', '2', '3'], 2) ∧
+    roundAsciiDigits .HalfUp false (natStr 12995) 4 = (['1', '3'], 3) ∧
+    roundAsciiDigits .Up false (natStr 9991) 2 = (['1'], 4) := by
+  refine ⟨by decide +kernel, by decide +kernel, by decide +kernel⟩
+
 end BigDec
